@@ -13,10 +13,12 @@ fn any_script() -> Script {
     p = p.with_max_fee(kani::any());
     Transaction::script(kani::any(), vec![], vec![], p, vec![], vec![], vec![])
 }
-/// Fee parameters with the given (concrete) price factor and a symbolic gas_per_byte, which makes
-/// min_gas / max_gas symbolic over a wide range.
+/// Fee parameters with the given (concrete) price factor and the default gas_per_byte.  The gas
+/// amounts still range widely: max_gas through the symbolic witness limit, the refund base through
+/// the symbolic used gas.  (A symbolic gas_per_byte adds a second 64x64 multiplier level in front of
+/// gas*price and the fee harnesses no longer finish.)
 fn fee_params(factor: u64) -> FeeParameters {
-    FeeParameters::DEFAULT.with_gas_price_factor(factor).with_gas_per_byte(kani::any())
+    FeeParameters::DEFAULT.with_gas_price_factor(factor)
 }
 
 /// q == ceil(n / f) in witness form (f >= 1): q*f >= n > (q-1)*f, with q == 0 iff n == 0
@@ -40,34 +42,52 @@ macro_rules! h {
     };
 }
 
-fn fees_equal_formula(factor: u64) {
+/// which: 0 = min fee formula, 1 = max fee formula, 2 = order + checked_from_tx
+fn fees_equal_formula(factor: u64, which: u8) {
     let tx = any_script();
     let gc = GasCosts::default();
     let fp = fee_params(factor);
     let price: Word = kani::any();
-    let (min_gas, max_gas) = (tx.min_gas(&gc, &fp), tx.max_gas(&gc, &fp));
-    assert!(min_gas <= max_gas);
     let tip = tx.tip() as u128;
-    let (min_fee, max_fee) = (tx.min_fee(&gc, &fp, price), tx.max_fee(&gc, &fp, price));
-    // fee == ceil(gas * price / factor) + tip   (the sum cannot overflow u128)
-    assert!(min_fee >= tip && is_ceil_div(min_fee - tip, min_gas as u128 * price as u128, factor as u128));
-    assert!(max_fee >= tip && is_ceil_div(max_fee - tip, max_gas as u128 * price as u128, factor as u128));
-    assert!(min_fee <= max_fee);
-    // checked_from_tx: None instead of a panic when a fee does not fit u64
-    match TransactionFee::checked_from_tx(&gc, &fp, &tx, price) {
-        Some(f) => {
-            assert!(f.min_fee() as u128 == min_fee && f.max_fee() as u128 == max_fee && f.min_gas() == min_gas && f.max_gas() == max_gas);
-            kani::cover!(true, "fees fit u64");
+    match which {
+        0 => {
+            let min_gas = tx.min_gas(&gc, &fp);
+            let min_fee = tx.min_fee(&gc, &fp, price);
+            // fee == ceil(gas * price / factor) + tip   (the sum cannot overflow u128)
+            assert!(min_fee >= tip && is_ceil_div(min_fee - tip, min_gas as u128 * price as u128, factor as u128));
+            kani::cover!(min_fee > tip, "non-zero gas fee");
         }
-        None => { assert!(max_fee > u64::MAX as u128 || min_fee > u64::MAX as u128); kani::cover!(true, "fee overflow reported as None"); }
+        1 => {
+            let max_gas = tx.max_gas(&gc, &fp);
+            let max_fee = tx.max_fee(&gc, &fp, price);
+            assert!(max_fee >= tip && is_ceil_div(max_fee - tip, max_gas as u128 * price as u128, factor as u128));
+            kani::cover!(max_fee > tip, "non-zero gas fee");
+        }
+        _ => {
+            let (min_gas, max_gas) = (tx.min_gas(&gc, &fp), tx.max_gas(&gc, &fp));
+            assert!(min_gas <= max_gas);
+            let (min_fee, max_fee) = (tx.min_fee(&gc, &fp, price), tx.max_fee(&gc, &fp, price));
+            assert!(min_fee <= max_fee);
+            // checked_from_tx: None instead of a panic when a fee does not fit u64
+            match TransactionFee::checked_from_tx(&gc, &fp, &tx, price) {
+                Some(f) => {
+                    assert!(f.min_fee() as u128 == min_fee && f.max_fee() as u128 == max_fee && f.min_gas() == min_gas && f.max_gas() == max_gas);
+                    kani::cover!(true, "fees fit u64");
+                }
+                None => { assert!(max_fee > u64::MAX as u128 || min_fee > u64::MAX as u128); kani::cover!(true, "fee overflow reported as None"); }
+            }
+            kani::cover!(min_gas < max_gas, "witness limit adds gas");
+        }
     }
-    kani::cover!(min_gas < max_gas, "witness limit adds gas");
     core::mem::forget(tx);
 }
-h!(c18_fees_factor_1, { fees_equal_formula(1) });
-h!(c18_fees_factor_2, { fees_equal_formula(2) });
-h!(c18_fees_factor_default, { fees_equal_formula(1_000_000_000) });
-h!(c18_fees_factor_big, { fees_equal_formula((1u64 << 40) + 12345) });
+h!(c18_min_fee_factor_1, { fees_equal_formula(1, 0) });
+h!(c18_min_fee_factor_default, { fees_equal_formula(1_000_000_000, 0) });
+h!(c18_min_fee_factor_big, { fees_equal_formula((1u64 << 40) + 12345, 0) });
+h!(c18_max_fee_factor_1, { fees_equal_formula(1, 1) });
+h!(c18_max_fee_factor_default, { fees_equal_formula(1_000_000_000, 1) });
+h!(c18_order_factor_1, { fees_equal_formula(1, 2) });
+h!(c18_order_factor_default, { fees_equal_formula(1_000_000_000, 2) });
 
 fn refund_formula(factor: u64) {
     let tx = any_script();
@@ -120,3 +140,43 @@ fn refund_monotone(factor: u64) {
 }
 h!(c18_refund_monotone_factor_1, { refund_monotone(1) });
 h!(c18_refund_monotone_factor_default, { refund_monotone(1_000_000_000) });
+
+// ---- ordering for the other chargeable kinds (they override min_gas / gas_used_by_metadata) -----
+use fuel_tx::{Blob, BlobBody, Create, Upload, UploadBody, Witness};
+use fuel_types::{BlobId, Bytes32, Salt};
+
+fn any_policies() -> Policies {
+    let mut p = Policies::new();
+    if kani::any() { p = p.with_tip(kani::any()); }
+    if kani::any() { p = p.with_witness_limit(kani::any()); }
+    p.with_max_fee(kani::any())
+}
+fn order<T: Chargeable>(tx: &T, factor: u64) {
+    let gc = GasCosts::default();
+    let fp = fee_params(factor);
+    let price: Word = kani::any();
+    let (min_gas, max_gas) = (tx.min_gas(&gc, &fp), tx.max_gas(&gc, &fp));
+    assert!(min_gas <= max_gas, "minimum gas never exceeds maximum gas");
+    let (min_fee, max_fee) = (tx.min_fee(&gc, &fp, price), tx.max_fee(&gc, &fp, price));
+    assert!(min_fee <= max_fee, "minimum fee never exceeds maximum fee");
+    if let Some(f) = TransactionFee::checked_from_tx(&gc, &fp, tx, price) { assert!(f.min_fee() <= f.max_fee() && f.min_gas() <= f.max_gas()); kani::cover!(true, "fees computed"); }
+    kani::cover!(min_gas < max_gas, "witness limit adds gas");
+}
+fn witness16() -> Witness { Witness::from(vec![kani::any::<u8>(); 16]) }
+h!(c18_order_upload, {
+    let body = UploadBody { root: Bytes32::zeroed(), witness_index: 0, subsection_index: 0, subsections_number: 1, proof_set: vec![] };
+    let tx: Upload = Transaction::upload(body, any_policies(), vec![], vec![], vec![witness16()]);
+    order(&tx, 1);
+    core::mem::forget(tx);
+});
+h!(c18_order_blob, {
+    let body = BlobBody { id: BlobId::zeroed(), witness_index: 0 };
+    let tx: Blob = Transaction::blob(body, any_policies(), vec![], vec![], vec![witness16()]);
+    order(&tx, 1);
+    core::mem::forget(tx);
+});
+h!(c18_order_create, {
+    let tx: Create = Transaction::create(0, any_policies(), Salt::zeroed(), vec![], vec![], vec![], vec![witness16()]);
+    order(&tx, 1);
+    core::mem::forget(tx);
+});
